@@ -166,6 +166,7 @@ fn run(ctx: &Arc<Ctx>) {
     let ex = if ctx.quick() { None } else { Some("every single-codeword error position of every size x 3 error values") };
     ctx.run_enumerated("single-errors", "rs", singles, ex, check_word);
     ctx.run_generated("patterns", "rs", ctx.cases(100_000, 2_000_000), || g_error_pattern(Radius::Within), check_word);
+    ctx.run_generated("constrained-values", "rs", ctx.cases(150_000, 3_000_000), || g_constrained_values(Radius::Within), check_word);
     ctx.run_generated("pixels", "pixels", ctx.cases(20_000, 300_000), g_pixels, check_pixels);
 }
 
